@@ -100,6 +100,15 @@ Definition drop (s : smstate) (o : obj) : res smstate :=
 Definition reduce_obj (o : obj) : block * Z := (o_block o, o_size o).
 Definition rebuild_obj (st : block * Z) : obj := mk_obj (fst st) (snd st).
 
+(* a lock-wrapped object: synchronized(obj, lock, ctx) keeps the lock it is given (a lock is named
+   by the semaphore behind it); a wrapper pickles as (synchronized, (obj, lock)) *)
+Record wrapper := mk_wrapper { wr_obj : obj; wr_lock : Z }.
+Definition synchronized_w (o : obj) (lock : Z) : wrapper := mk_wrapper o lock.
+Definition reduce_wrapper (w : wrapper) : (block * Z) * Z := (reduce_obj (wr_obj w), wr_lock w).
+Definition rebuild_wrapper (st : (block * Z) * Z) : wrapper := synchronized_w (rebuild_obj (fst st)) (snd st).
+(* number of wrapper-returning branches of synchronized() *)
+Definition synchronized_branches : nat := 4.
+
 (* ---- part 2: locked read-modify-write ------------------------------------------------
    `with v.get_lock(): v.value += 1` on a Synchronized value whose lock is recursive:
      with lock:            Acq
